@@ -1,5 +1,6 @@
 import Dashu.Props.C12
 open Dashu.Props.C12
+#print axioms gcd_prim_spec
 #print axioms gcd_spec
 #print axioms gcd_ext_prim_spec
 #print axioms gcd_ext_bezout
